@@ -3383,6 +3383,10 @@ class ServiceRequestingTransport(Transport):
             raise SSHException("No existing session")
         # Also make sure we've actually been told we are allowed to auth.
         if self._service_userauth_accepted:
+            # (an unsolicited MSG_SERVICE_ACCEPT gets us here without ever
+            # having waited below, so the handler may not exist yet)
+            if self.auth_handler is None:
+                self.auth_handler = self.get_auth_handler()
             return
         # Or request to do so, otherwise.
         m = Message()
